@@ -516,6 +516,22 @@ def extract_function(proj, fi, functable, real='double', srcrel=None, select=Non
         b, ex.loops_spliced = splice_loops(b, contract)
         ex.loop_lines = [line_body + o for o in getattr(contract, 'loop_line_offsets', [])]
         b = splice_captures(b, contract, report)
+    # R9b: a MUTABLE function-local static is state shared by all callers (and all threads).  DFCC treats static locals as private to the function
+    # and lets it write them freely, so they are hoisted to file scope (renamed <function>__static_<name>): a write to one is then an assignment
+    # outside the function's frame, i.e. a failed `assigns` obligation (C14: a static / const function must not write shared state).
+    hoisted = []
+    spat = re.compile(r'(?m)^([ \t]*)static\s+(?!const\b|inline\b)((?:unsigned\s+|long\s+)*(?:int|double|float|_Bool|char|unsigned|long|size_t))\s+([^;{}]+);')
+    for m in reversed(list(spat.finditer(b))):
+        decl = m.group(3)
+        names = [re.match(r'\s*\**\s*(\w+)', d).group(1) for d in X.split_top(decl)]
+        b = b[:m.start()] + m.group(1) + '/* function-local static hoisted to file scope (R9b) */' + b[m.end():]
+        line = '%s %s;' % (m.group(2), ' '.join(decl.split()))
+        for nm in names:
+            new = '%s__static_%s' % (fi.cname, nm)
+            b = re.sub(r'(?<![\w.>])%s\b' % re.escape(nm), new, b)
+            line = re.sub(r'(?<![\w.>])%s\b' % re.escape(nm), new, line)
+        hoisted.insert(0, line)
+        report.hit('R9b.mutable_static_local_hoisted', len(names))
     parts.append('#line %d "%s"' % (line_body, os.path.join(proj.repo, srcrel)))
     parts.append(b)
     # wrappers of the call sites of replaced callees (per-site vacuity canaries, see rule_calls)
@@ -530,7 +546,7 @@ def extract_function(proj, fi, functable, real='double', srcrel=None, select=Non
             wr.append('static inline %s { %s %s }' % (proto_w, call, canary))
         else:
             wr.append('static inline %s { %s r_ = %s %s return r_; }' % (proto_w, cfi.ret_ctype, call, canary))
-    ex.text = '\n'.join(wr + parts)
+    ex.text = '\n'.join(hoisted + wr + parts)
     ex.body_c = b
     return ex
 
